@@ -70,7 +70,7 @@ DS0(n) == Strings(DigitSet, n)
 InitShape == \E sg \in Signs, ip \in DS0(MaxLen), fp \in DS0(MaxLen), pt \in BOOLEAN :
                /\ Len(ip) + Len(fp) > 0 /\ (fp # <<>> => pt)
                /\ \/ x = MkShape(sg, ip, pt, fp)
-                  \/ \E ws1 \in WsSet, e \in ExpCh, ws2 \in WsSet, esg \in Signs, ed \in DS(2) :
+                  \/ \E ws1 \in WsSet, e \in ExpCh, ws2 \in WsSet, esg \in Signs, ed \in {<<49>>, <<48, 57>>} :
                         x = WithExp(MkShape(sg, ip, pt, fp), ws1, e, ws2, esg, ed)
 ShapeLemmas ==
   LET l == Build(x)
